@@ -102,6 +102,12 @@ Common(e, c, isProbeEnd) ==
            (Line.e = "step" /\ Line.label = "s1" /\ plan.s1 = "ok" /\ plan.prep = "dup") => (ret /\ Line.res = "err" /\ Line.initn = 0)>>
      })
 
+\* the application's membership map changes between two sessions
+SetMapEv ==
+  /\ Line.e = "setmap"
+  /\ mem' = Line.membership
+  /\ UNCHANGED <<vars, tid, drift, viol, parts, olive, ostage>>
+
 CallEv ==
   /\ Line.e = "call"
   /\ parts' = [parts EXCEPT ![Line.c] = IF Line.plan.prep = "dup" THEN Rng(Line.dupparticipants) ELSE Rng(Line.participants)]
@@ -177,5 +183,5 @@ CrashEv ==
 EndEv == Line.e = "end" /\ PrintT(<<"END", ToJson([t |-> tid, drift |-> drift])>>) /\ UNCHANGED <<vars, tid, drift, viol, mem, parts, olive, ostage>>
 
 TNext == /\ l <= Len(Trace) /\ l' = l + 1
-         /\ (Reset \/ CallEv \/ StepEv \/ CancelEv \/ LateEv \/ InjectEv \/ EmitEv \/ CrashEv \/ EndEv)
+         /\ (Reset \/ SetMapEv \/ CallEv \/ StepEv \/ CancelEv \/ LateEv \/ InjectEv \/ EmitEv \/ CrashEv \/ EndEv)
 =============================================================================
